@@ -109,7 +109,12 @@ namespace AIToolbox {
             const auto & compPoint = ubV.first[compatiblePoints[0]];
 
             result.resize(1);
-            result[0] = (point.cwiseQuotient(compPoint)).minCoeff();
+            // Only the states where the compatible point is non-zero limit
+            // its weight; elsewhere the ratio would be infinite (or 0/0).
+            result[0] = 1.0;
+            for (const auto s : nonZeroStates)
+                if (checkDifferentSmall(compPoint[s], 0.0))
+                    result[0] = std::min(result[0], point[s] / compPoint[s]);
 
             unscaledValue = result[0] * (ubV.second[compatiblePoints[0]] - compPoint.transpose() * cornerVals);
         } else {
